@@ -49,7 +49,7 @@ def run_property(pid, tier, seed, only, spec):
     _M.load(prog)
     cat = catalog(prog, tier)
     extra = spec.get('extra_builders', {})
-    timeout = 15000 if tier == 'quick' else 90000
+    timeout = spec.get('timeout_ms', 15000) if tier == 'quick' else max(90000, spec.get('timeout_ms', 0) * 3)
     built = {}
     for group, source, rx in spec.get('deductive', []):
         if only and not re.search(only, group):
@@ -68,7 +68,7 @@ def run_property(pid, tier, seed, only, spec):
             chk.undecided.append(f"{group}: zero obligations selected by /{rx}/ (vacuous)")
             continue
         res = solve.discharge(obs, timeout_ms=timeout)
-        chk.record(res, group, replayer=spec.get('replayer'))
+        chk.record(res, group, replayer=spec.get('replayer'), tolerate_unknown=spec.get('tolerate_unknown'))
     # vacuity canaries: per source one deliberately false clause on a returning path must be refuted
     for source, reps in built.items():
         for fv, rep in reps[:2]:
